@@ -53,6 +53,8 @@ class Type(Scope):
         self.inherit_var = find_in_scope(self.parent, self.inherit, obj_tree)
         if self.inherit_var is not None:
             self._resolve_inherit_parent(obj_tree, inherit_version)
+        else:
+            self.in_children = []
 
     def _resolve_inherit_parent(self, obj_tree, inherit_version):
         # Resolve parent inheritance while avoiding circular recursion
